@@ -33,6 +33,11 @@ static rc::Gen<Op> c10_op()
 	    // the socket becomes writable in the same readiness event in which input arrives that produces no frame for this connection
 	    // (d = 1: expanded by c10_gen into a response cut short + DRAIN + an id-less request of the same connection)
 	    {3, op_gen(DRAIN, conn, path, val, zero(), rc::gen::just(1), zero(), nojoin())},
+	    // incoming control traffic on a WebSocket reader whose send path may be full: the pong is one more frame that must be whole or refused
+	    {3, rc::gen::apply([](int conn, int len, int mk, bool join) { Op o; o.kind = WSFRAME; o.conn = conn; o.a = 9; o.b = 3; o.d = mk; o.s = std::string((size_t)len, 'p'); o.join = join; return o; },
+	                       conn, rc::gen::element<int>(0, 1, 20, 100, 124, 125), rng(0, 1000), jn)},
+	    // a batch whose first response (get of everything, larger than the tiny write buffer) meets a kernel that takes only a part (d = 2: expanded by c10_gen)
+	    {2, op_gen(DRAIN, conn, rng(1, 60), zero(), zero(), rc::gen::just(2), zero(), nojoin())},
 	    {1, op_gen(CONNECT, zero(), rng(0, 3), rng(0, 4), zero(), zero(), zero(), nojoin())},
 	    {1, op_gen(END, conn, rng(0, 3), zero(), zero(), zero(), zero(), jn)},
 	});
@@ -47,8 +52,17 @@ static rc::Gen<Scenario> c10_gen()
 		{ Op o; o.kind = CONNECT; o.a = 0; sc.ops.push_back(o); }
 		// many subscriptions on the readers, several states of different sizes on the publisher: every change fans out into many frames
 		for (int c = 0; c < 2; c++) for (int f = 0; f < 3; f++) { Op o; o.kind = FETCH; o.conn = c; o.a = f; o.b = 0; sc.ops.push_back(o); }
-		for (int p = 0; p < 3 + big; p++) { Op o; o.kind = ADD; o.conn = 2; o.a = p; o.b = 4 + p % 6; sc.ops.push_back(o); }
+		sc.values = world::default_values();
+		sc.values.push_back("\"" + std::string(300, 'v') + "\""); sc.values.push_back("[\"" + std::string(180, 'w') + "\",1,2,3]"); // indices 15, 16: a get of everything outgrows the tiny write buffer
+		for (int p = 0; p < 3 + big; p++) { Op o; o.kind = ADD; o.conn = 2; o.a = p; o.b = (p % 3 == 0) ? 15 + (p / 3) % 2 : 4 + p % 6; sc.ops.push_back(o); }
 		for (auto &o : ops) {
+			if (o.kind == DRAIN && o.d == 2) {
+				{ Op w; w.kind = WPLAN; w.conn = o.conn; w.v = {1 + 4 * o.a}; sc.ops.push_back(w); }     // the next write is cut after o.a bytes
+				{ Op b; b.kind = BATCH; b.conn = o.conn; b.a = 2; sc.ops.push_back(b); }
+				{ Op g; g.kind = GET; g.conn = o.conn; g.b = 0; sc.ops.push_back(g); }
+				{ Op i; i.kind = INFO; i.conn = o.conn; sc.ops.push_back(i); }
+				continue;
+			}
 			if (o.kind == DRAIN && o.d == 1) {
 				{ Op w; w.kind = WPLAN; w.conn = o.conn; w.v = {1 + 4 * (3 + o.b)}; sc.ops.push_back(w); }                    // the next write is cut after a few bytes
 				{ Op i; i.kind = INFO; i.conn = o.conn; sc.ops.push_back(i); }                                                  // a response for this connection: torn, rest queued
